@@ -1,4 +1,5 @@
 """C04 — after a crash at any instant, restart exposes a consistent prefix (structural clauses)."""
+import json, re
 from lib import *
 from mir import render, walk, short, canon
 from engine import AnchorLost
@@ -72,6 +73,50 @@ def run(ctx, rep):
     # ------------------------------------------------------------ R04.f no panic on the start-up path
     rep.rule('R04.f', 'no unguarded may-panic site on the start-up path for crash-producible inputs', floor=40, analysis='A7')
     check_panics(ctx, rep, 'R04.f', sp.STARTUP_FNS, sp.PANICS)
+
+    # ------------------------------------------------------------ R04.g the precondition the allowlisted slices of parse_index rely on
+    rep.rule('R04.g', 'parse_index slices its argument at fixed positions up to INDEX_SIZE: every use receives a chunks_exact(INDEX_SIZE) chunk, so a torn trailing index record is skipped, never sliced', floor=3, analysis='A9 argument provenance')
+    PI = 'server::streaming::segments::indexes::index_reader::parse_index'
+    isz = ctx.facts.consts.get('server::streaming::segments::indexes::INDEX_SIZE', (None, None))[1]
+    if not ctx.has(PI) or isz is None:
+        rep.anchor_lost('R04.g', 'parse_index / INDEX_SIZE')
+    else:
+        pb = ctx.fn_body(PI)
+        top = 0
+        for blk in sorted(pb.reach):
+            for s_ in pb.stmts(blk):
+                rv = s_.get('rv')
+                if rv and rv['r'] == 'agg' and rv.get('adt', '').endswith('Range') and rv.get('variant') == 'Range':
+                    e = pb._expr_rvalue(rv, 0, frozenset())
+                    d_ = dict(e[3])
+                    if d_.get('end', ('?',))[0] == 'const':
+                        top = max(top, int(d_['end'][1]))
+        rep.ob('R04.g', PI, 'slices stay within INDEX_SIZE', 0 < top <= isz, None, 'highest slice end %d, INDEX_SIZE %d' % (top, isz))
+        uses = 0
+        for dd in sorted(ctx.facts.body_defs()):
+            if not in_crate(dd):
+                continue
+            raw = ctx.facts.raw_body(dd)
+            if PI not in json.dumps(raw['blocks']) or dd == PI:
+                continue
+            b = ctx.body(dd)
+            for c in b.calls:
+                src = None
+                if c.name == PI and is_user_call(c):
+                    src = canon(b.pexpr_operand(c.args[0]), 0, 4)
+                else:
+                    for a in c.args[1:]:
+                        e = b.pexpr_operand(a)
+                        if e[0] == 'fnitem' and e[1] == PI:
+                            src = canon(b.pexpr_operand(c.args[0]), 0, 4)
+                if src is None:
+                    continue
+                uses += 1
+                m = re.search(r'chunks_exact\(.*, (\w+)\)', src)
+                ok = bool(m) and m.group(1) in (str(isz), 'INDEX_SIZE') and 'chunks(' not in src
+                rep.ob('R04.g', ctx.user_fn_of(dd), 'parse_index receives an exact chunk', ok, c.where(), 'from ' + src[:100] if ok else
+                       'parse_index is fed from `%s`, not from chunks_exact(INDEX_SIZE): a partially written trailing index record reaches the fixed-position slices and panics at start-up' % src[:160])
+        rep.ob('R04.g', PI, 'uses enumerated', uses >= 3, None, '%d uses' % uses)
 
 
 LW = 'server::streaming::segments::logs::log_writer::SegmentLogWriter'
